@@ -1577,8 +1577,11 @@ class SMTFormula(Formula):
             self.auto_eval
             and len(new_free_variables) + len(new_instantiated_variables) == 0
         ):
-            # Formula is ground, we can evaluate it!
-            return smt_atom(is_valid(new_smt_formula).to_bool())
+            # Formula is ground, we can evaluate it! If the truth value cannot be
+            # determined (e.g., because of a solver timeout), we leave the formula as is.
+            validity = is_valid(new_smt_formula)
+            if not validity.is_unknown():
+                return smt_atom(validity.to_bool())
 
         return SMTFormula(
             cast(z3.BoolRef, new_smt_formula),
